@@ -35,7 +35,7 @@ FLOORS = {"programs:rejected": 0.5}
 REJECT_KINDS = ["ctor_dup", "ctor_parent_collision", "replace_dup", "replace_parent_collision", "attach_collision",
                 "id_collision", "replace_forbidden", "replace_with_parent", "replace_with_type", "replace_with_optional",
                 "replace_with_attach_fails", "transform_raises", "transform_illtyped", "ctor_grandchild_collision",
-                "replace_with_stale_receiver", "shared_detached_twice"]
+                "replace_with_stale_receiver", "shared_detached_twice", "replace_registry_collision"]
 
 
 class NotApplicable(Exception):
@@ -127,6 +127,21 @@ def do_rejected(r: c18.Runner, o: list, lab: Labels) -> str:
                 raise NotApplicable
             lab.tag_if(not n.detached, "attached-receiver")
             return n.replace(items=(*n.items, x)) if c % 2 else n.replace(opt=x)
+        if kind == "replace_registry_collision":
+            # a value among the changes is a detached node (a detached clone of an attached one, possibly deeper
+            # in a detached new subtree) whose id is registered: the new node cannot be attached
+            n = w.sel(a, lambda x: type(x).__name__ in ("LInner", "LFalsy") and not x.detached)
+            if n is None:
+                raise NotApplicable
+            excl = {id(y) for y in E.subtree(n)} | {id(y) for y in w.ancestors_of(n)}
+            live = [x for x in w.held if not x.detached and id(x) not in excl and type(x).__name__ in ("LLeaf", "LSub", "LLeafB")]
+            if not live:
+                raise NotApplicable
+            clone = live[b % len(live)].duplicate(as_detached_clone=True)
+            if c % 3 == 2:
+                clone = L.cls("LInner")(req=clone, origin=w.origin(0), v=4, create_detached=True)  # the clash sits one level down
+            lab.tag("attached-receiver")
+            return n.replace(items=(*n.items, clone)) if c % 2 else n.replace(opt=clone)
         if kind == "attach_collision":
             cands = [n for n in w.held if n.detached and (not w.free_id(n.id) or n in _stale_parent_with_attached_child(w))]
             if not cands:
@@ -236,6 +251,10 @@ def do_rejected(r: c18.Runner, o: list, lab: Labels) -> str:
                             if fail_late:
                                 super().generic_visit(node)  # the node's subtree is processed first
                             raise RuntimeError("rule failed")
+                        if prepared.get("root_inner") is not None and c % 3 >= 1:
+                            # the rule hands back a tree that existed before (an attached root of its own)
+                            lab.tag("rule-returns-pre-existing-attached-root")
+                            return prepared["root_inner"]
                         return L.cls("LInner")(origin=world.origin(0), v=3, create_detached=True)
                     return super().generic_visit(node)
 
@@ -251,6 +270,8 @@ def do_rejected(r: c18.Runner, o: list, lab: Labels) -> str:
         raise ValueError(kind)
 
     prepared: dict = {}
+    if kind == "transform_illtyped":
+        prepared["root_inner"] = w.hold(L.cls("LInner")(origin=w.origin(0), v=5, items=(L.cls("LLeaf")(v=1, origin=w.origin(0)),)))
     if kind == "replace_with_type":
         prepared["inner"] = w.hold(L.cls("LInner")(origin=w.origin(0), v=2))  # created before the snapshot
     if kind == "shared_detached_twice":
